@@ -292,16 +292,13 @@ void Search::iter_search()
             result = search(_position, _current_depth, min_bound, max_bound,
                             info + 1);
 
+            // only ever widen the window: pulling the other bound in to
+            // result +/- 1 let an unstable search fail low and high in turn
+            // for ever (the window never grew on both sides)
             if (result <= min_bound)
-            {
                 min_bound = std::max(min_bound - delta, -VALUE_INFINITE);
-                max_bound = std::min(result + 1, VALUE_INFINITE);
-            }
             else if (result >= max_bound)
-            {
-                min_bound = std::max(result - 1, -VALUE_INFINITE);
                 max_bound = std::min(max_bound + delta, VALUE_INFINITE);
-            }
             else
                 break;
 
